@@ -565,11 +565,16 @@ EXPECT = ["C16.simulation_leaves_the_initial_state_of_the_model_untouched", "C16
 ATTEMPTED = ["C16.attempted.rate_coefficient_follows_its_documented_shape_in_time"]
 
 
+# reference replays run when the symbolic run of a harness ends in an exception of the code under analysis (see runner.run_check)
+ERROR_REPLAYS = {"single.diag": (replay_diag, {"m": 2}), "single.": (replay_euler, {}), "coupled.levels": (replay_levels, {}), "coupled.": (replay_euler, {}),
+                 "df.": (replay_df, {}), "ratecoef.": (replay_rate_coefficients, {})}
+
+
 def main(tier):
     bounds = {"euler": "<= 2 steps (quick) / 3 (thorough), state and driver dimension <= 2, constant / diag(x) / affine coefficient functions, arbitrary driver paths and drifts",
               "df": "<= 2 (quick) / 3 (thorough) rates, arbitrary increasing tenors, rates >= 0, 0 <= t1 < t2 <= last tenor",
               "outside": "the Libor drift term (dblquad of the copula derivative), LiborSDEFunction / ForwardMarketSDEFunction sigma(t) schedules, epsilon = h^BG passed to the driver"}
-    return run_check(PID, tier, harnesses(tier), expect=EXPECT, attempted=ATTEMPTED, bounds=bounds,
+    return run_check(PID, tier, harnesses(tier), expect=EXPECT, attempted=ATTEMPTED, error_replays=ERROR_REPLAYS, bounds=bounds,
                      assumptions=COMMON_ASSUMPTIONS + ["the simulators are built with __new__ around a scripted symbolic driver path (the driver itself is C15's subject)",
                                                        "exp as UF (positive, monotone, exp(0)=1)"])
 
